@@ -37,3 +37,64 @@ Example C09_example :
                    mkTok 10 [10] 1 0; mkTok 9220 [] 0 0 ])
   = [0; 2; 1; 0; 0; 1; 1; 0; 0; 0].
 Proof. vm_compute. reflexivity. Qed.
+
+(* ---- byte level: the written bytes lex back to the formatted tokens ----------------------------
+   Model of the scanner: Lex/HclLex.v (C14); composition and proofs: Write/FormatBytes*.v. *)
+From HclV Require Import Base.Prelude Gen.TokenTypes Lex.Scanner Lex.HclLex Write.Format Write.FormatProofs
+  Write.FormatBytes Write.FormatBytesProofs.
+
+(* Byte level, sources made of main-scanner tokens (identifiers, numbers, operators and
+   punctuation, brackets and braces, newlines, comments; no quoted or heredoc templates)
+   that contain none of the hazard patterns of FormatBytes.hazard_free ("! =", two adjacent
+   dot tokens, "${" followed directly by its closer; and "<number> . e"): for every
+   grapheme-count oracle g, scanning the bytes written for the formatted tokens gives back
+   exactly the formatted writer tokens — same types, same bytes, same SpacesBefore. *)
+Theorem C09_bytes_relex_exact_simple :
+  forall (g : list Z -> Z) (data : list Z) (ks : list rtok),
+    lex_main data = Some ks -> simple ks = true -> hazard_free ks = true ->
+    exists ks', lex_main (write (format (writer_tokens g 0 ks))) = Some ks' /\
+                writer_tokens g 0 ks' = format (writer_tokens g 0 ks).
+Proof. exact relex_exact_simple. Qed.
+Print Assumptions C09_bytes_relex_exact_simple.
+
+(* ... in particular the output has the same token sequence (types and bytes) as the input *)
+Theorem C09_bytes_same_tokens_simple :
+  forall g data ks,
+    lex_main data = Some ks -> simple ks = true -> hazard_free ks = true ->
+    exists ks', lex_main (write (format (writer_tokens g 0 ks))) = Some ks' /\
+                map rtyb ks' = map rtyb ks.
+Proof. exact relex_stable_simple. Qed.
+Print Assumptions C09_bytes_same_tokens_simple.
+
+(* ... and Format(Format(src)) = Format(src) on bytes *)
+Theorem C09_bytes_idempotent_simple :
+  forall g data ks out,
+    lex_main data = Some ks -> simple ks = true -> hazard_free ks = true ->
+    format_bytes g data = Some out -> format_bytes g out = Some out.
+Proof. exact bytes_idempotent_simple. Qed.
+Print Assumptions C09_bytes_idempotent_simple.
+
+(* For ANY source of main-scanner tokens (hazard patterns included): a local check of
+   the first bytes after every token of the formatted list — no scanner run — suffices. *)
+Theorem C09_bytes_relex_exact_of_layout :
+  forall g data ks,
+    lex_main data = Some ks -> simple ks = true ->
+    layout_okb (format (writer_tokens g 0 ks)) = true ->
+    exists ks', lex_main (write (format (writer_tokens g 0 ks))) = Some ks' /\
+                writer_tokens g 0 ks' = format (writer_tokens g 0 ks).
+Proof. exact relex_exact_main. Qed.
+Print Assumptions C09_bytes_relex_exact_of_layout.
+
+(* The hazard conditions are necessary: without them the statement is false
+   ("x = ! = 1\n", "x = a. . .b\n", "x = \"${ ~}\"\n"; none of them parses). *)
+Theorem C09_bytes_relex_stable_refuted : exists data, ~ relex_stable_at glen data.
+Proof. exact relex_stable_refuted. Qed.
+Print Assumptions C09_bytes_relex_stable_refuted.
+
+(* Non-vacuity: "x = a.0.e5 - -1 # c\ny=[1 ,2]\n" satisfies the hypotheses. *)
+Example C09_bytes_example :
+  let data := [120;32;61;32;97;46;48;46;101;53;32;45;32;45;49;32;35;32;99;10;121;61;91;49;32;44;50;93;10] in
+  exists ks, lex_main data = Some ks /\ simple ks = true /\ hazard_free ks = true /\
+             format_bytes glen data
+             = Some [120;32;61;32;97;46;48;46;101;53;32;45;32;45;49;32;35;32;99;10;121;32;61;32;91;49;44;32;50;93;10].
+Proof. eexists. repeat split; vm_compute; reflexivity. Qed.
